@@ -521,6 +521,32 @@ def sweep_programs():
     return out
 
 
+def size_programs():
+    """goals whose type exceeds a reduced max_size, posed as ROOT goals and as subgoals of a conjunction
+    on the same solver, in both orders: (Prog, goals, [(config name, solver)], [history (goal indices)]).
+    A root goal gets its table without any size check; a later goal that has the same oversized goal as
+    a subgoal must still be abstracted exactly as on a fresh solver."""
+    A = pg.adt
+    v = pg.var
+    p = pg.Prog([pg.Adt("Alice"), pg.Adt("Vec", 1)], [pg.Trait("Foo")],
+                [pg.Impl(0, ("Foo", (A("Alice"),))), pg.Impl(1, ("Foo", (A("Vec", v(0)),)), [("Foo", (v(0),))])], "size-nested-vec")
+
+    def nest(k):
+        t = A("Alice")
+        for _ in range(k):
+            t = A("Vec", t)
+        return t
+    goals, hists = [], []
+    for k in (2, 3, 4):
+        big = ("atom", ("Foo", (nest(k),)))
+        conj = ("and", (big, ("atom", ("Foo", (A("Alice"),)))))
+        i = len(goals)
+        goals += [big, conj]
+        hists += [[i, i + 1], [i + 1, i], [i, i + 1, i]]
+    cfgs = [("slg-ms3", slg_with(3)), ("slg-ms4", slg_with(4)), ("rec-ms3", rec_with(100, True, 3))]
+    return [(p, goals, cfgs, hists)]
+
+
 def programs(rng, n, goals_per=(4, 1, 1), seeded=False):
     """corpus first, then n generated programs: list of (Prog, text, goals, goal_texts)"""
     out = []
